@@ -116,6 +116,7 @@ def _body_to_clauses(body: List[ast.stmt], acc: str, kind: str, gens: List[ast.c
 
 
 _cache: Dict[Tuple[int, str], object] = {}
+_keep_units: List[object] = []      # ids are cache keys: the objects must stay alive
 _MUTATORS = {'append', 'add', 'extend', 'update', 'insert', 'remove', 'pop', 'clear', 'discard', 'setdefault', 'popitem',
              'sort', 'reverse', 'appendleft', 'extendleft', '__setitem__'}
 
@@ -169,6 +170,7 @@ def accumulated_value(p: Program, unit: FuncUnit, name: str, init: ast.AST):
                 ast.fix_missing_locations(comp)
                 res = ('comp', comp)
     _cache[key] = res
+    _keep_units.append(unit)
     return res
 
 
@@ -213,4 +215,170 @@ def merged_if_value(p: Program, unit: FuncUnit, name: str, ndefs: int) -> Option
                 res = e
                 break
     _merge_cache[key] = res
+    _keep_units.append(unit)
+    return res
+
+
+# ---------------------------------------------------------------------------------------------
+# outlined statement blocks: `self._helper(a, b, callback)` as a statement, where the helper is a method of the
+# same class made of plain statements (no value returned), is the helper's body with the arguments substituted.
+
+import dataclasses
+
+_view_cache: Dict[object, object] = {}
+
+
+def _simple_arg(e: ast.AST) -> bool:
+    if isinstance(e, (ast.Constant, ast.Name)):
+        return True
+    if isinstance(e, ast.Attribute):
+        return _simple_arg(e.value)
+    return False
+
+
+def _inlinable_call(p: Program, unit: FuncUnit, st: ast.stmt):
+    if not (isinstance(st, ast.Expr) and isinstance(st.value, ast.Call)):
+        return None
+    c = st.value
+    if not (isinstance(c.func, ast.Attribute) and isinstance(c.func.value, ast.Name) and c.func.value.id == 'self'):
+        return None
+    if unit.cls is None:
+        return None
+    m = p.lookup_method(unit.cls, c.func.attr, unit.cls)
+    if m is None or m.is_async or m.is_property or m.is_static or m.is_classmethod or m is unit or isinstance(m.node, ast.Lambda):
+        return None
+    if any(isinstance(a, ast.Starred) for a in c.args) or any(k.arg is None for k in c.keywords):
+        return None
+    if not all(_simple_arg(a) for a in c.args) or not all(_simple_arg(k.value) for k in c.keywords):
+        return None
+    a = m.node.args
+    if a.vararg or a.kwarg or a.kwonlyargs or getattr(a, 'posonlyargs', None):
+        return None
+    params = [x.arg for x in a.args][1:]
+    if len(c.args) > len(params):
+        return None
+    table: Dict[str, ast.AST] = {}
+    for name, arg in zip(params, c.args):
+        table[name] = arg
+    for k in c.keywords:
+        if k.arg not in params or k.arg in table:
+            return None
+        table[k.arg] = k.value
+    defaults = dict(zip(reversed(params), reversed(a.defaults)))
+    for name in params:
+        if name not in table:
+            if name not in defaults or not _simple_arg(defaults[name]):
+                return None
+            table[name] = defaults[name]
+    body = list(m.node.body)
+    if body and isinstance(body[0], ast.Expr) and isinstance(body[0].value, ast.Constant):
+        body = body[1:]
+    for n in ast.walk(ast.Module(body=body, type_ignores=[])):
+        if isinstance(n, (ast.Return, ast.Yield, ast.YieldFrom, ast.Await, ast.Global, ast.Nonlocal, ast.FunctionDef,
+                          ast.AsyncFunctionDef, ast.Lambda, ast.ClassDef)):
+            return None
+        if isinstance(n, ast.Name) and isinstance(n.ctx, (ast.Store, ast.Del)) and n.id in table:
+            return None
+    if len(body) < 2:
+        return None          # thin wrappers keep their identity (accessor-like helpers are handled symbolically)
+    return m, body, table
+
+
+def _names_stored(stmts: List[ast.stmt]) -> set:
+    return {n.id for s in stmts for n in ast.walk(s) if isinstance(n, ast.Name) and isinstance(n.ctx, (ast.Store, ast.Del))}
+
+
+class _Rename(ast.NodeTransformer):
+    def __init__(self, table: Dict[str, ast.AST], renames: Dict[str, str]) -> None:
+        self.table = table
+        self.renames = renames
+
+    def visit_Name(self, node: ast.Name):
+        if node.id in self.renames:
+            return ast.copy_location(ast.Name(id=self.renames[node.id], ctx=node.ctx), node)
+        if isinstance(node.ctx, ast.Load) and node.id in self.table:
+            return ast.copy_location(copy.deepcopy(self.table[node.id]), node)
+        return node
+
+
+def _inline_block(p: Program, unit: FuncUnit, stmts: List[ast.stmt], caller_names: set, depth: int, log: List[str],
+                  only: Optional[set] = None):
+    out: List[ast.stmt] = []
+    changed = False
+    for st in stmts:
+        hit = _inlinable_call(p, unit, st) if depth < 2 and (only is None or id(st) in only) else None
+        if hit is not None:
+            m, body, table = hit
+            stored = _names_stored(body)
+            renames = {n: f'{n}__{m.name.strip("_")}' for n in stored if n in caller_names}
+            new_body = []
+            for b in body:
+                nb = _Rename(table, renames).visit(copy.deepcopy(b))
+                ast.copy_location(nb, st)
+                for x in ast.walk(nb):
+                    if hasattr(x, 'lineno'):
+                        x.lineno = st.lineno
+                        x.end_lineno = getattr(st, 'end_lineno', st.lineno)
+                    elif isinstance(x, (ast.expr, ast.stmt)):
+                        ast.copy_location(x, st)
+                ast.fix_missing_locations(nb)
+                new_body.append(nb)
+            if only is None:
+                new_body, _ = _inline_block(p, unit, new_body, caller_names | stored, depth + 1, log)
+            out.extend(new_body)
+            log.append(m.qualname)
+            changed = True
+            continue
+        new = None
+        for fld in ('body', 'orelse', 'finalbody'):
+            sub = getattr(st, fld, None)
+            if isinstance(sub, list) and sub and isinstance(sub[0], ast.stmt) and not isinstance(st, (ast.FunctionDef, ast.AsyncFunctionDef, ast.ClassDef)):
+                nsub, ch = _inline_block(p, unit, sub, caller_names, depth, log, only)
+                if ch:
+                    if new is None:
+                        new = copy.copy(st)
+                    setattr(new, fld, nsub)
+        if isinstance(st, ast.Try):
+            hs = []
+            hch = False
+            for h in st.handlers:
+                nb, ch = _inline_block(p, unit, h.body, caller_names, depth, log, only)
+                if ch:
+                    nh = copy.copy(h)
+                    nh.body = nb
+                    hs.append(nh)
+                    hch = True
+                else:
+                    hs.append(h)
+            if hch:
+                if new is None:
+                    new = copy.copy(st)
+                new.handlers = hs
+        if new is not None:
+            out.append(new)
+            changed = True
+        else:
+            out.append(st)
+    return out, changed
+
+
+def inline_view(p: Program, unit: FuncUnit, only: Optional[set] = None) -> Tuple[FuncUnit, List[str]]:
+    """A view of `unit` in which outlined statement blocks (methods of the same class called as statements with
+    plain arguments) are spliced back in; `only` restricts the splice to the given statements (by id).
+    Returns (unit or its view, names of the spliced helpers)."""
+    key = (id(unit), frozenset(only) if only is not None else None)
+    if key in _view_cache:
+        return _view_cache[key]
+    res = (unit, [])
+    if not isinstance(unit.node, ast.Lambda):
+        env = FuncEnv.of(p, unit)
+        names = set(env.local_defs())
+        log: List[str] = []
+        body, changed = _inline_block(p, unit, list(unit.node.body), names, 0, log, only)
+        if changed:
+            node = copy.copy(unit.node)
+            node.body = body
+            res = (dataclasses.replace(unit, node=node), log)
+    _view_cache[key] = res
+    _keep_units.append(unit)
     return res
